@@ -16,6 +16,7 @@
 
 mod facts;
 mod fnlevel;
+mod purefn;
 mod sched;
 
 use std::{fs, path::Path};
@@ -79,6 +80,11 @@ fn main() {
     // ---- expression-level facts -------------------------------------------------------------
     let (text, mut rep) = facts::generate(repo);
     write_if_changed(&out.join("SourceFacts.v"), &text);
+    report.append(&mut rep);
+
+    // ---- purefn: integer / slice routines over N (index construction, subset search) ----------
+    let (text, mut rep) = purefn::generate(repo);
+    write_if_changed(&out.join("PureFns.v"), &text);
     report.append(&mut rep);
 
     let rep_text = format!("[\n{}\n]\n", report.join(",\n"));
